@@ -1,4 +1,5 @@
 import Varint.Bridge.Tagged
+import Varint.Bridge.CSimple
 import Varint.Lemmas.Canon
 import Varint.Lemmas.Spec
 import Varint.Lemmas.Mono
@@ -28,6 +29,12 @@ theorem chained_spec_valid (v : Nat) (hv : v < 2 ^ 64) : Chained.enc v = Spec.ch
 
 theorem csimple_spec_valid (v : Nat) (hv : v < 2 ^ 64) : ChainedSimple.enc v = Spec.leb128cap9 v :=
   csimple_enc_eq_spec v hv
+
+/-- on the machine translation of `varintChainedSimpleEncode64`: the bytes stored are the documented format's -/
+theorem c_csimple_spec_valid (v : Nat) (hv : v < 2 ^ 64) (fuel : Nat) (hf : 9 ≤ fuel) :
+    Varint.Gen.C.csEncode64 fuel v =
+      some ((Spec.leb128cap9 v).length, Varint.Bridge.storesFrom 0 (Spec.leb128cap9 v)) := by
+  rw [Varint.Bridge.CSimple.csEncode64_eq v fuel hf, csimple_enc_eq_spec v hv]
 
 /-- external: the minimal little- (big-) endian slice: `k` bytes hold `v`, `k-1` would not -/
 theorem ext_spec_valid (v : Nat) :
